@@ -12,7 +12,7 @@
      DupCheck = FALSE         nothing looks for duplicates inside one block / one box
      PayloadIdentity = FALSE  identity of a transaction is the hash over its signature bytes *)
 EXTENDS Integers, Sequences, FiniteSets, TLC
-CONSTANTS Times, ExpChoices, OfferMenu, MaxBlocks, DupCheck, PayloadIdentity
+CONSTANTS Times, ExpChoices, OfferMenu, MaxBlocks, MaxBoots, DupCheck, PayloadIdentity
 Life == 1800
 Tx == {"t", "t2", "u", "b", "bb", "bu"}
 SubsOf(x) == CASE x = "b" -> <<"t">> [] x = "bb" -> <<"t", "t">> [] x = "bu" -> <<"t", "u">> [] OTHER -> <<>>
@@ -27,8 +27,9 @@ ExecAll(L) == IF L = <<>> THEN <<>> ELSE ExecSeq(Head(L)) \o ExecAll(Tail(L))
 NoDup(s) == \A i, j \in 1..Len(s) : i # j => s[i] # s[j]
 Map(s, F(_)) == [i \in 1..Len(s) |-> F(s[i])]
 
-VARIABLES exp, blocks, stable, dead
-vars == <<exp, blocks, stable, dead>>
+VARIABLES exp, blocks, stable, dead,
+          boots     \* number of restarts so far: a restart rebuilds the node's guard, so what follows it is a different history
+vars == <<exp, blocks, stable, dead, boots>>
 N == Len(blocks)
 RECURSIVE Anc(_)
 Anc(b) == IF b = 0 THEN {} ELSE {b} \cup Anc(blocks[b].parent)
@@ -40,15 +41,15 @@ Valid(p, tm, L) == /\ \A i \in 1..Len(L) : Legal(L[i], tm)
                    /\ Range(Map(ExecAll(L), Ident)) \cap Done(p, Ident) = {}
 Init == /\ exp \in ExpChoices
         /\ blocks = <<[parent |-> 0, time |-> 0, txl |-> <<>>, acc |-> TRUE]>>       \* genesis
-        /\ stable = 1 /\ dead = {}
+        /\ stable = 1 /\ dead = {} /\ boots = 0
 Offer(p, tm, L) == /\ N < MaxBlocks /\ p \in Usable /\ tm >= blocks[p].time
                    /\ ~ \E X \in 1..N : blocks[X].parent = p /\ blocks[X].time = tm /\ blocks[X].txl = L   \* the very same block again is ignored
                    /\ blocks' = Append(blocks, [parent |-> p, time |-> tm, txl |-> L, acc |-> Valid(p, tm, L)])
-                   /\ UNCHANGED <<exp, stable, dead>>
-Stabilise(s) == /\ s \in Usable /\ s # stable /\ stable' = s /\ UNCHANGED <<exp, blocks, dead>>
-Reboot == /\ dead' = dead \cup ((1..N) \ Anc(stable))
-           /\ (dead' # dead \/ N < MaxBlocks)                    \* bound: only where it matters
-           /\ UNCHANGED <<exp, blocks, stable>>
+                   /\ UNCHANGED <<exp, stable, dead, boots>>
+Stabilise(s) == /\ s \in Usable /\ s # stable /\ stable' = s /\ UNCHANGED <<exp, blocks, dead, boots>>
+Reboot == /\ boots < MaxBoots /\ boots' = boots + 1
+          /\ dead' = dead \cup ((1..N) \ Anc(stable))
+          /\ UNCHANGED <<exp, blocks, stable>>
 Next == \/ \E p \in 1..MaxBlocks, tm \in Times, L \in OfferMenu : Offer(p, tm, L)
         \/ \E s \in 1..MaxBlocks : Stabilise(s)
         \/ Reboot
